@@ -67,6 +67,10 @@ def compute_a_and_b(xi, w, dt):
     :return: matrices A and B
     """
 
+    # The B terms cancel to O((w dt)^3): evaluate the coefficients in extended precision
+    w = np.asarray(w, dtype=np.longdouble)
+    xi = np.longdouble(xi)
+    dt = np.longdouble(dt)
     # Reduce the terms since all is matrix multiplication.
     xi2 = xi * xi  # D2
     w2 = w ** 2  # W2
@@ -104,7 +108,7 @@ def compute_a_and_b(xi, w, dt):
 
     b = np.array([[b_11, b_12], [b_21, b_22]])
 
-    return a, b
+    return a.astype(float), b.astype(float)
 
 
 def nigam_and_jennings_response(acc, dt, periods, xi):
